@@ -170,7 +170,7 @@ fn main() {
         }
         // text corner cases: a backslash inside the VRs that are never multi-valued, empty middle values, leading spaces,
         // values ending in '0' next to the padding, odd lengths
-        for vr in [VR::LT, VR::ST, VR::UT] {
+        for vr in [VR::LT, VR::ST, VR::UT, VR::UR] {
             if let Some(tag) = tag_for(vr) {
                 for s in ["A\\B", "line one\\line two\\", "  leading", "x\\"] {
                     t.cases += 1;
@@ -182,6 +182,12 @@ fn main() {
                     let back = d.decode_header().ok().and_then(|h| d.read_value(&h).ok());
                     let ok = match &back { Some(b) => b.multiplicity() <= 1 && b.to_str().trim_end_matches(' ') == s.trim_end_matches(' '), None => false };
                     if !ok { t.fail(format!("{} VR {} Str {:?}: read back {:?} (a backslash is part of the text in this VR; leading spaces are significant)", name, vr.to_string(), s, back)); }
+                    // the same through the reading strategy that the data set readers use by default (values preserved as text)
+                    t.cases += 1;
+                    let mut d = StatefulDecoder::new_with(&out[..], ts, SpecificCharacterSet::default(), 0).unwrap();
+                    let back = d.decode_header().ok().and_then(|h| d.read_value_preserved(&h).ok());
+                    let ok = match &back { Some(b) => b.multiplicity() <= 1 && b.to_str().trim_end_matches(' ') == s.trim_end_matches(' '), None => false };
+                    if !ok { t.fail(format!("{} VR {} Str {:?}: read back (values preserved) as {:?} (a backslash is part of the text in this VR; leading spaces are significant)", name, vr.to_string(), s, back)); }
                 }
             }
         }
